@@ -236,3 +236,48 @@ Section SSP.
     forall r, @planar_chain R N ps sx sy done k u v None <> Some r.
   Proof. intros ps sx sy done k u v H r H'. rewrite H in H'. discriminate. Qed.
 End SSP.
+
+(** ** the depth cut-off of the acceleration shortcuts (property C07) is sufficient for chains of straight
+    pieces: a point at arclength [a] of a piece and normal offset [d] (0 <= d) lies no deeper than the start of
+    the surface + the length of the chain up to that arclength + d.  Hence a member of the feature (along <= total
+    length, distance <= thickness) has depth <= min depth + total length + thickness. *)
+Section Cutoff.
+  Variable sp : special.
+  Local Existing Instance Rnum.
+  Let N := Rnum sp.
+
+  (** depth of the end of a chain of straight pieces (length, dip) that starts at depth [sy] *)
+  Fixpoint chain_end_depth (ps : list (R * R)) (sy : R) : R :=
+    match ps with
+    | [] => sy
+    | (L, th) :: r => chain_end_depth r (sy + L * sin th)
+    end.
+  Fixpoint chain_length (ps : list (R * R)) : R :=
+    match ps with [] => 0 | (L, _) :: r => L + chain_length r end.
+
+  Lemma chain_end_depth_bound : forall ps sy, (forall L th, In (L, th) ps -> 0 <= L) ->
+    chain_end_depth ps sy <= sy + chain_length ps.
+  Proof.
+    induction ps as [|[L th] r IH]; intros sy H; cbn [chain_end_depth chain_length]; [lra|].
+    assert (HL : 0 <= L) by (apply (H L th); left; reflexivity).
+    assert (IH' := IH (sy + L * sin th) (fun L' th' Hin => H L' th' (or_intror Hin))).
+    pose proof (SIN_bound th) as [_ S1].
+    assert (L * sin th <= L) by nra. lra.
+  Qed.
+
+  (** the end depth computed by the specification's straight pieces is [chain_end_depth] *)
+  Lemma spec_end_depth sx sy L th u v :
+    pe_ey (@straight_eval R N sx sy {| pc_len := L; pc_top := th; pc_bot := th |} u v) = sy + L * sin th.
+  Proof. reflexivity. Qed.
+
+  Theorem cutoff_sufficient_straight : forall prefix sy L th a d,
+    (forall L' th', In (L', th') prefix -> 0 <= L') -> 0 <= a <= L -> 0 <= d ->
+    let start := chain_end_depth prefix sy in
+    start + a * sin th + d * cos th <= sy + (chain_length prefix + L) + d.
+  Proof.
+    intros prefix sy L th a d Hp [Ha0 Ha1] Hd start.
+    pose proof (chain_end_depth_bound prefix sy Hp) as B. fold start in B.
+    pose proof (SIN_bound th) as [_ S1]. pose proof (COS_bound th) as [_ C1].
+    assert (a * sin th <= a) by nra. assert (d * cos th <= d) by nra. lra.
+  Qed.
+End Cutoff.
